@@ -20,6 +20,8 @@ type ProgOpts struct {
 	Log        bool // append side-effect markers to the global `log`
 	Params     int  // number of `param` names (a0..)
 	Decls      bool // var/const groups, iota, destructuring, inc/dec
+	TryHeavy   bool // many nested try/catch/finally with every exit kind
+	CallHeavy  bool // many functions, closures, variadic/spread calls
 	FailOps    bool // operations that raise runtime errors (1/0 via variables, bad index, call of non-callable)
 }
 
@@ -106,9 +108,15 @@ func (g *progGen) stmt(sb *strings.Builder, sc *scope, depth int, ind string) {
 		}
 		if o.Try {
 			choices = append(choices, "try", "try")
+			if o.TryHeavy {
+				choices = append(choices, "try", "try", "try", "try", "for", "throw", "return")
+			}
 		}
 		if o.Funcs {
 			choices = append(choices, "func", "call")
+			if o.CallHeavy {
+				choices = append(choices, "func", "func", "call", "call", "call", "retcall")
+			}
 		}
 	}
 	if o.Try && (sc.inTry || g.r.Intn(6) == 0) {
@@ -298,6 +306,8 @@ func (g *progGen) stmt(sb *strings.Builder, sc *scope, depth int, ind string) {
 		}
 	case "call":
 		fmt.Fprintf(sb, "%s%s\n", ind, g.callExpr(sc, o.ExprDepth))
+	case "retcall":
+		fmt.Fprintf(sb, "%sreturn %s\n", ind, g.callExpr(sc, o.ExprDepth))
 	case "setindex":
 		v := g.varOfKind(sc, 'A')
 		if v == "" {
